@@ -466,10 +466,10 @@ def gen_fac_cases(rng, tier):
     # every (domain sizes, weight shape) pair up to rank 3, in each of the three forms
     pairs = [(a, b) for a in shapes for b in shapes]
     if tier == "quick":
-        # all pairs of equal rank or adjacent rank with sizes <= 2, plus a sample of the rest; every right pair
+        # all pairs with sizes <= 2, every matching pair, plus 900 sampled others
         small = [(a, b) for a, b in pairs if max(a + b + [0]) <= 2]
         rest = [(a, b) for a, b in pairs if max(a + b + [0]) > 2 and a != b]
-        pairs = small + [(a, a) for a in shapes if max(a + [0]) > 2] + rng.sample(rest, 1500)
+        pairs = small + [(a, a) for a in shapes if max(a + [0]) > 2] + rng.sample(rest, 900)
     for k, (ds, ws) in enumerate(pairs):
         for form in ("nested", "tensor", "patterned"):
             flav = [(k + j) % 5 for j in range(len(ds))]
@@ -627,6 +627,13 @@ def gen_bind_cases(rng, tier):
                     cases.append(("pos", bind_history(cls, {"A": "D2"}, "none", ("g", ["A"] * r, True), fd, False, rng)))
                 un = ["A"] * r; un[pos] = "C"                              # C is never mapped
                 cases.append(("unmapped", bind_history(cls, {"A": "D2"}, "none", ("g", un, True), ["D2"] * r, False, rng)))
+    # arity off by one in either direction, all present domains matching
+    for cls in ("FG", "FGG"):
+        for r in range(4):
+            for fr in (r - 1, r + 1):
+                if fr < 0: continue
+                for const in (False, True):
+                    cases.append(("arity", bind_history(cls, {"A": "D2"}, "none", ("g", ["A"] * r, True), ["D2"] * fr, const, rng)))
     # add_domain / new_finite_domain: rebinding a node label must fail; generators (F15)
     for cls in ("FG", "FGG"):
         for kind in ("list", "tuple", "gen", "iter"):
@@ -706,7 +713,7 @@ def obs_summary(kind, v):
 
 RUNNERS = {"dom": (run_dom, DOM), "fac": (run_fac, FAC), "bind": (run_bind, BIND)}
 
-def run_model_c20(cf, values, seed, coq_sample=16, per_code=6):
+def run_model_c20(cf, values, seed, coq_sample=10, per_code=4):
     """core.run_model with a kernel re-evaluation that stays cheap on these large case terms
     (Coq elaborates ~10 kB of case text per second): all cases through the extracted driver;
     inside Coq (vm_compute), in parallel shards, a random sample plus for every non-zero verdict
@@ -782,7 +789,7 @@ def run(tier, seed):
             samples.append(dict(kind=kind, spec=items[-1][1]))
     cov = dict(evaluations=total, distinct_nontrivial=distinct,
                rule="dom: every value list of length <= 3 over {0, 1, 'a', None, True} (duplicates and the cross-type duplicate 1/True included) as list, tuple and generator; random domains of size 0..8 over 20 mixed hashable values given as list/tuple/generator/iterator/dict (20% with duplicates); RangeDomain sizes 0,1,2,3,5,inf; each with contains/numberize on members and non-members, denumberize on -n-2..n+1, ==/!= against 5-8 other domains. "
-                    "fac: (domain sizes, weight shape) pairs up to rank 3 over sizes 0..3 (quick: all pairs with sizes <= 2, every matching pair, 1500 sampled others; thorough: all 7225) in the three forms nested list / Tensor / PatternedTensor, plus eye/full patterned tensors, infinite and F15 domains, malformed nested lists (ragged, mixed depth, empty rows); apply on every complete value tuple, prefixes, over-long and unknown values; == against 6-9 other factors. "
+                    "fac: (domain sizes, weight shape) pairs up to rank 3 over sizes 0..3 (quick: all pairs with sizes <= 2, every matching pair, 900 sampled others; thorough: all 7225) in the three forms nested list / Tensor / PatternedTensor, plus eye/full patterned tensors, infinite and F15 domains, malformed nested lists (ragged, mixed depth, empty rows); apply on every complete value tuple, prefixes, over-long and unknown values; == against 6-9 other factors. "
                     "bind: every pairing of an edge label (terminal/nonterminal, type over {A,B}, arity 0..3) with a factor (domains over {D2, D3, R2}, arity 0..3) under pre-states (label unregistered / registered / clashing / nonterminal clash / already bound; node labels mapped to equal / different / no domain), all matching pairings under every pre-state, equal-by-content vs different domain in every position, new_finite_domain / new_finite_factor grids, random histories; FactorGraph and FGG alternate; shape() on label lists, tuples, node lists, EdgeLabel, Edge. "
                     "non-trivial = domain of size >= 2 (or range size >= 2), factor of rank >= 1, history with >= 3 calls including a factor binding; distinct by spec",
                samples=samples, phase_seconds=phase, generator_histogram=hist, verdict_histogram=verdicts, kernel_reevaluated=nk_total,
